@@ -353,7 +353,7 @@ pub fn writable_fixtures() -> Vec<(&'static str, &'static str, &'static str)> {
         ("webp", "image/webp", "test.webp"),
         ("wav", "audio/wav", "sample1.wav"),
         ("avi", "video/avi", "test.avi"),
-        ("tiff", "image/tiff", "tiff_poc.tiff"),
+        ("tiff", "image/tiff", "test.tiff"),
         ("svg", "image/svg+xml", "sample1.svg"),
         ("mp3", "audio/mpeg", "sample1.mp3"),
         ("flac", "audio/flac", "sample1.flac"),
